@@ -313,6 +313,9 @@ class JSObject:
         self._getters: Dict[str, Any] = {}  # property name -> getter function
         self._setters: Dict[str, Any] = {}  # property name -> setter function
         self._prototype = prototype
+        # Made without a prototype on purpose (Object.create(null),
+        # setPrototypeOf(o, null)) -- unlike an object a built-in has not linked yet
+        self._null_prototype = False
         # Creation order of all own keys; only tracked once the object has an
         # accessor property (until then it is the order of _properties)
         self._key_order: Optional[Dict[str, None]] = None
